@@ -256,6 +256,7 @@ def strategy(tier):
     'tn': st.lists(st.integers(0, len(TABLE_POOL) - 1), min_size=3, max_size=3),
     'cn': st.lists(st.integers(0, len(COL_POOL) - 1), min_size=15, max_size=15),
     'attrs': st.lists(st.tuples(st.integers(0, 2), st.integers(0, 5), _SEL).map(list), min_size=1, max_size=2),
+    'attrs_last': st.booleans(),
     'resources': st.lists(st.tuples(st.integers(0, 3), st.integers(0, 255)).map(list), min_size=1, max_size=3),
     'rules': st.lists(st.tuples(sel, e).map(list), min_size=1, max_size=4),
     'dropdowns': st.lists(st.tuples(st.integers(0, 5), st.integers(0, 2), e).map(list), min_size=0, max_size=3),
@@ -437,10 +438,16 @@ def build(case, out):
 
   # ACL resources and rules (one bundle, negative ids as the client does)
   uas = [['AddRecord', '_grist_ACLResources', -1, {'tableId': '*', 'colIds': '*'}]]
+  attr_uas = []
   for name, role, lc in attrs:
-    uas.append(['AddRecord', '_grist_ACLRules', None, {
+    attr_uas.append(['AddRecord', '_grist_ACLRules', None, {
       'resource': -1, 'memo': 'attr-' + name,
       'userAttributes': json.dumps({'name': name, 'tableId': tables[role], 'lookupColId': lc, 'charId': 'Email'})}])
+  # a user-attribute rule may have been added after the rules that use it (higher row id): both orders occur
+  attrs_last = bool(case.get('attrs_last'))
+  out.cls('acl:attr-rules-after-formula-rules' if attrs_last else 'acl:attr-rules-first')
+  if not attrs_last:
+    uas.extend(attr_uas)
   resources = [(None, '*')]      # index 0 = default
   for i, rs in enumerate((case.get('resources') or [[0, 3]])[:3]):
     rs = (list(rs) + [0, 0])[:2]
@@ -462,6 +469,8 @@ def build(case, out):
       'aclFormula': '' if is_bad else txt}])
     if is_bad:
       bad_texts.add(txt)
+  if attrs_last:
+    uas.extend(attr_uas)
   r = d.apply(uas)
   if not r.ok:
     out.fail('C17:setup', 'cannot add ACL records: %r' % (r.error,), uas)
